@@ -58,7 +58,7 @@ CHECKS = {
     "C08": dict(
         level="model_checking",
         technique="exhaustive program enumeration x initial contexts on the real HashMapContext, and deviation-bounded depth-first exploration of environment answers (scripted Context) per program, against a reference interpreter incl. the ordered trace of context interactions",
-        text="All programs up to 3 operator nodes over an effectful alphabet (assignments, op-assigns, recording calls, a failing user function that shadows a builtin, failing atoms, an operator with a missing operand, tuples, chains) in 3 contexts, and per program every script of context answers with up to 2 deviations (unbound / wrong-type reads, failing / missing / substituted functions, failing / lossy writes). Result, final variables, call log and the exact interaction sequence are compared, so reordered, repeated, skipped or rolled-back evaluation steps are all visible.",
+        text="All programs up to 3 operator nodes over an effectful alphabet (assignments, op-assigns, recording calls, a failing user function that shadows a builtin, failing atoms, the empty value, an operator with a missing operand, tuples, chains) in 4 contexts, each through the mutable walker, the shared-context walker and (if it has effects) all 7 typed mutable views, and per program every script of context answers with up to 2 deviations (unbound / wrong-type reads, failing / missing / substituted functions, failing / lossy writes). Result, final variables, call log and the exact interaction sequence are compared, so reordered, repeated, skipped or rolled-back evaluation steps are all visible.",
         note="Trusted: the reference interpreter. The scripted axis reads 'exactly once' as: one context interaction per variable read, call and write. Not compared: an op-assign whose right-hand side assigns to its own target (two documented readings).",
         design_ref="DESIGN.md section 4, C08",
     ),
@@ -79,21 +79,21 @@ CHECKS = {
     "C11": dict(
         level="model_checking",
         technique="exhaustive program enumeration x contexts; shared-context, mutable-on-clone and no-storage evaluations of each program compared with each other and with a reference interpreter in immutable / mutable / no-storage mode",
-        text="All programs up to 2 (quick) / 3 (thorough) operator nodes of the C08 alphabet in 3 contexts: eval_with_context (tree and string), eval_with_context_mut on a clone, on a context with the default set_value, and on the two empty contexts; direct differential for assignment-free programs, projection to ContextNotMutable otherwise, context observation before and after.",
+        text="All programs up to 2 (quick) / 3 (thorough) operator nodes of the C08 alphabet in 4 contexts: eval_with_context (tree and string), eval_with_context_mut on a clone, on a context with the default set_value, and on the two empty contexts; direct differential for assignment-free programs (untyped and all 7 typed views), a context with variables named like the program's own source text, projection to ContextNotMutable otherwise, context observation before and after.",
         note="Trusted: the reference interpreter; an immutable op-assign whose read or operator would fail may report either error.",
         design_ref="DESIGN.md section 4, C11",
     ),
     "C12": dict(
         level="model_checking",
-        technique="exhaustive enumeration of token sequences x 11 contexts x all 48 entry points + build_operator_tree; each typed result compared with the projection of the untyped one, tree level with string level, context-free with fresh context, repeated runs",
-        text="Every token sequence up to 4 (quick) / 5 (thorough) tokens over an alphabet reaching all six result types and every error stage, in 11 contexts, through all 24 string-level entry points (twice), all 24 Node methods and build_operator_tree; sequences up to 4 tokens also written without spaces where the reference lexer reads the same tokens. A copy-paste slip in any wrapper shows on the first input whose untyped result distinguishes it; all value types and errors occur (guarded).",
+        technique="exhaustive enumeration of token sequences x 13 contexts x all 48 entry points + build_operator_tree; each typed result compared with the projection of the untyped one, tree level with string level, context-free with fresh context, repeated runs",
+        text="Every token sequence up to 4 (quick) / 5 (thorough) tokens over an alphabet reaching all six result types and every error stage, in 13 contexts (incl. one holding variables named like the source text itself), through all 24 string-level entry points (twice), all 24 Node methods and build_operator_tree; sequences up to 4 tokens also written without spaces where the reference lexer reads the same tokens. A copy-paste slip in any wrapper shows on the first input whose untyped result distinguishes it; all value types and errors occur (guarded).",
         note="Trusted: the projection rules written from the property statement.",
         design_ref="DESIGN.md section 4, C12",
     ),
     "C13": dict(
         level="model_checking",
         technique="depth-first search over all token-prefix states up to a length over a class-representative alphabet on the real tokenizer/tree builder/evaluator, classified by an independent recursive-descent recogniser",
-        text="Every token sequence up to 7 (quick) / 9 (thorough, 5.7 G states) tokens over 12 class representatives (up to 6 also written without spaces where the reference lexer reads the same tokens) and up to 4 / 5 over all 34 operator tokens, plus 27 families of long malformed inputs; unbalanced input must be rejected, balanced input never reported unbalanced, ill-formed input must not evaluate successfully in any of 5 generous contexts.",
+        text="Every token sequence up to 7 (quick) / 9 (thorough, 5.7 G states) tokens over 12 class representatives (up to 6 also written without spaces where the reference lexer reads the same tokens) and up to 4 / 5 over all 36 tokens (every operator, string literals spelling a parenthesis; short sequences also with comments containing a parenthesis), plus 27 families of long malformed inputs; unbalanced input must be rejected, balanced input never reported unbalanced, ill-formed input must not evaluate successfully in any of 5 generous contexts through the shared or the mutable walker.",
         note="Trusted: mc/src/refmodel/recogniser.rs as the definition of well-formedness; arity-correct trees that merely never evaluate are counted, not reported.",
         design_ref="DESIGN.md section 4, C13",
     ),
